@@ -360,11 +360,13 @@ INT_CELLS = ["0", "7", "12", "-12", "+12", " 12", "12 ", "\t12\n", "0012", "-007
              "-", "+-1", "- 1", "1 2", "\x1c12", "12a", "2147483647", "2147483648", "-2147483648", "-2147483649", "99999999999999999999",
              "١٢", "１"]
 INT_LENGTHS = ["", "1", "2", "3", "5", "1...3", "2...3", "2...", "...3", "0...1", "1...", "0...", "4...5", "...2, 4...", "1, 3", "1...2, 5",
-               "5, 1...", "3, ...1", "2, 4...5", "0", "0...0", "-1...2", "3...2", "x"]
+               "5, 1...", "3, ...1", "2, 4...5", "0", "0...0", "-1...2", "3...2", "x", "1...15", "15", "16", "17", "16...", "...16", "18", "20"]
 INT_RULES = ["", "0...9", "-5...5", "1...", "...-1", "10...99, 200", "0x10...0x20", "-100...-10, 10...100", "5", "1...2...3", "a...b", "1:3",
              "1…3", "'a'...'z'", "-2147483648...2147483647", "12345",
              # limits that are exactly 0 (a limit of 0 is a limit), on either side and in the middle of several items
-             "-10...0", "0...0", "0", "0...", "...0", "-99...-50, -10...0, 20...30", "0...0, 5"]
+             "-10...0", "0...0", "0", "0...", "...0", "-99...-50, -10...0, 20...30", "0...0, 5",
+             # limits of 15 and more digits just below and at a power of ten (their length counts in characters)
+             "0...999999999999999", "999999999999999", "...9999999999999999", "-99999999999999999...0", "1000000000000000...", "99999999999999999999"]
 
 
 def base(ftype, fmt="delimited", length="", rule="", cells=(), empty=False, dsep=".", tsep=",", **kw):
